@@ -76,16 +76,19 @@ class Checker:
                 known = json.load(f)
         open_keys = {k["key"]: k for k in known if k.get("status") == "open" and k.get("property") == self.prop}
         viol = [o for o in self.obligations if not o["ok"]]
-        unlisted = [o for o in viol if o["key"] not in open_keys]
-        listed = [o for o in viol if o["key"] in open_keys]
+        # a listed finding is one construct of the source; the thorough tier meets it again in every further build configuration
+        # (`...@release`, `...@nostd`): it is matched by its key without the configuration suffix
+        base = lambda k: k.split("@")[0]
+        unlisted = [o for o in viol if base(o["key"]) not in open_keys]
+        listed = [o for o in viol if base(o["key"]) in open_keys]
         # dedupe by key
         seen = set()
         out_lines = []
         for o in listed:
-            if o["key"] in seen:
+            if base(o["key"]) in seen:
                 continue
-            seen.add(o["key"])
-            out_lines.append(f"KNOWN-FINDING: property={self.prop} {o['key']} {open_keys[o['key']].get('what', o['what'])}")
+            seen.add(base(o["key"]))
+            out_lines.append(f"KNOWN-FINDING: property={self.prop} {base(o['key'])} {open_keys[base(o['key'])].get('what', o['what'])}")
         vdir = os.path.join(EVIDENCE_DIR, "violations")
         n = 0
         seen = set()
@@ -114,7 +117,7 @@ class Checker:
         total = len(self.obligations)
         good = total - len(viol)
         print(f"[{self.prop}] tier={self.tier} obligations={total} discharged={good} "
-              f"known={len(set(o['key'] for o in listed))} violations={n} "
+              f"known={len(set(o['key'].split('@')[0] for o in listed))} violations={n} "
               f"functions={len(self.analysed['functions'])} wall={time.time() - self.t0:.1f}s")
         return 1 if n else 0
 
@@ -150,7 +153,7 @@ class Checker:
                 "configs": sorted(self.analysed["configs"]),
                 "instance_counts": self.stats,
                 "positive_controls": self.controls,
-                "known_findings_matched": sorted(set(o["key"] for o in listed)),
+                "known_findings_matched": sorted(set(o["key"].split("@")[0] for o in listed)),
                 "notes": self.analysed["notes"],
             },
             "assumptions": self.assumptions,
